@@ -29,7 +29,7 @@ def cap_pool(rng, asn):
     """semantic capabilities: list of (name, params)"""
     caps = []
     for f in rng.sample(FAMS, rng.choice([0, 1, 1, 2, 3, 12])):
-        caps.append(('mp', f))
+        caps.append(('mp', tuple(f) + ((rng.choice([1, 128, 255]),) if rng.random() < 0.15 else ())))
     for name in ('rr', 'cisco_rr', 'err', 'gr', 'multisession'):
         if rng.random() < 0.4:
             caps.append((name, None))
@@ -53,7 +53,8 @@ def cap_pool(rng, asn):
 def cap_bytes(c):
     n, p = c
     if n == 'mp':
-        return (1, struct.pack('!HBB', p[0], 0, p[1]))
+        # the reserved octet is 'ignored by the receiver' (RFC 4760): families carry it as an optional third element
+        return (1, struct.pack('!HBB', p[0], p[2] if len(p) > 2 else 0, p[1]))
     if n == 'rr':
         return (2, b'')
     if n == 'cisco_rr':
